@@ -413,7 +413,7 @@ pub fn c20(tier: Tier) -> i32 {
         "for every model-valid text of each universe (and a family of API-built documents with placeholders) a recording Visit and a recording VisitMut are run; the callback sequence (kind, node address, content) must equal an independent pre-order walk through the public accessors; a VisitMut that adds 1 to every integer must yield the model tree with every integer + 1 and change no text outside integer tokens; non-trivial = distinct documents with more than one node",
     );
     rep.assumptions = vec!["document order = the order of the public iterators (IndexMap order), which is what the visitor documentation promises".into()];
-    docu::run(&mut rep, tier, &["decor", "stmt", "tok", "corpus", "ctx"], &c20_eval);
+    docu::run(&mut rep, tier, &["decor", "stmt", "tok", "corpus", "ctx", "reopen"], &c20_eval);
     api_docs(&mut rep);
     rep.finish()
 }
